@@ -49,11 +49,11 @@ type AbsState struct {
 	Trackers   map[string]TrackerRec         `json:"trackers"`
 	Domains    map[string]DomRec             `json:"domains"`
 	Bids       map[string]BidRec             `json:"bids,omitempty"` // conversation id -> record and active offer (bid application)
-	Nonce      map[string]int64              `json:"nonce"`    // keeper_ sequence
-	Code       map[string]int64              `json:"code"`     // 1 when the account's keeper record carries a non-empty code hash
-	EvmStore   map[string]map[string]string  `json:"evmStore"` // contract -> slot (hex) -> value (hex)
-	EvmCode    map[string]int64              `json:"evmCode"`  // code hash (hex) -> code length
-	Bad        []string                      `json:"bad"`      // amounts that are negative or >= 2^30, with their keys
+	Nonce      map[string]int64              `json:"nonce"`          // keeper_ sequence
+	Code       map[string]int64              `json:"code"`           // 1 when the account's keeper record carries a non-empty code hash
+	EvmStore   map[string]map[string]string  `json:"evmStore"`       // contract -> slot (hex) -> value (hex)
+	EvmCode    map[string]int64              `json:"evmCode"`        // code hash (hex) -> code length
+	Bad        []string                      `json:"bad"`            // amounts that are negative or >= 2^30, with their keys
 	Unknown    []string                      `json:"unknown"`
 	Other      map[string]string             `json:"other,omitempty"`
 }
